@@ -73,6 +73,10 @@ func (s *seriesIt) Seek(t int64) bool {
 	l := 0
 	u := len(s.samples)
 	idx := int(0)
+	if len(s.samples) == 0 {
+		s.idx = 0
+		return false
+	}
 	if t <= s.samples[0].TimestampMs {
 		s.idx = 0
 		return true
@@ -89,7 +93,7 @@ func (s *seriesIt) Seek(t int64) bool {
 		}
 		u = idx
 	}
-	s.idx = idx
+	s.idx = l
 	return s.idx < len(s.samples)
 }
 
